@@ -434,5 +434,5 @@ def obligations():
     obs.append(Ob('h_history', {'n': 2, 'pin': {'s0': 2, 's1': 0, 'fk': 1}}, tiers=('quick',), timeout=900, path_timeout=300))
     obs += split(Ob('h_history', {'n': 1}, timeout=900, path_timeout=300, tiers=('thorough',)), s0=[0, 1, 2, 3, 4], fk=[0, 1, 2])
     obs += split(Ob('h_history', {'n': 2}, timeout=1800, path_timeout=300, tiers=('thorough',), twins=['conflict', 'released']),
-                 s0=[0, 1, 2, 3, 4], s1=[0, 1, 3], fk=[0, 1, 2])
+                 s0=[0, 1, 2, 3, 4], s1=[0, 3], fk=[0, 1, 2])
     return obs
